@@ -1,6 +1,511 @@
 From TU Require Import Base C10_Model C10_Proofs C14_Model.
+From TU Require C11_Model C11_Proofs C11_Link.
 From Coq Require Import Lia.
 Open Scope Z_scope.
 
+Module M11 := C11_Model.
+Module P11 := C11_Proofs.
+
+(** * 0. the target is untouched *)
 Lemma apply_input_target {A} (f : A -> A) item : snd (apply_input f item) = snd item.
 Proof. reflexivity. Qed.
+
+(** * 1. one unfolding step, totality *)
+Definition piece (ti td : Z) (prev_ws first : bool) (c : cluster) (k : Z) : list cluster :=
+  if cl_ws c then (if k <? td then [] else [c])
+  else if (k <? ti) && negb first && negb prev_ws then [[32%N]; c] else [c].
+
+Lemma corrupt_aux_cons ti td prev first c r k ks :
+  corrupt_aux ti td prev first (c :: r) (k :: ks) =
+  option_map (app (piece ti td prev first c k)) (corrupt_aux ti td (cl_ws c) false r ks).
+Proof. reflexivity. Qed.
+
+Lemma corrupt_aux_inv ti td prev first c r ks out :
+  corrupt_aux ti td prev first (c :: r) ks = Some out ->
+  exists k ks' rest, ks = k :: ks' /\ corrupt_aux ti td (cl_ws c) false r ks' = Some rest
+                     /\ out = piece ti td prev first c k ++ rest.
+Proof.
+  destruct ks as [|k ks']; [discriminate|]. rewrite corrupt_aux_cons.
+  destruct (corrupt_aux ti td (cl_ws c) false r ks') as [rest|] eqn:E; [|discriminate].
+  cbn [option_map]. intros H. injection H as <-. exists k, ks', rest. auto.
+Qed.
+
+Lemma corrupt_aux_total ti td : forall chars prev first ks,
+  (length chars <= length ks)%nat -> exists out, corrupt_aux ti td prev first chars ks = Some out.
+Proof.
+  induction chars as [|c r IH]; intros prev first ks H; [eexists; reflexivity|].
+  destruct ks as [|k ks']; [cbn in H; lia|]. cbn [length] in H.
+  destruct (IH (cl_ws c) false ks') as [rest E]; [lia|].
+  rewrite corrupt_aux_cons, E. eexists; reflexivity.
+Qed.
+
+Lemma ws32 : cl_ws [32%N] = true.
+Proof. reflexivity. Qed.
+
+(** * 2. only whitespace changes *)
+Lemma strip_app a b : strip (a ++ b) = strip a ++ strip b.
+Proof. apply filter_app. Qed.
+
+Lemma strip_piece ti td prev first c k :
+  strip (piece ti td prev first c k) = if cl_ws c then [] else [c].
+Proof.
+  unfold piece. destruct (cl_ws c) eqn:E.
+  - destruct (k <? td); [reflexivity|]. rewrite strip_cons, E. reflexivity.
+  - destruct ((k <? ti) && negb first && negb prev)%bool.
+    + rewrite strip_cons, ws32, strip_cons, E. reflexivity.
+    + rewrite strip_cons, E. reflexivity.
+Qed.
+
+Lemma corrupt_strip ti td : forall chars prev first ks out,
+  corrupt_aux ti td prev first chars ks = Some out -> strip out = strip chars.
+Proof.
+  induction chars as [|c r IH]; intros prev first ks out H.
+  - cbn in H. injection H as <-. reflexivity.
+  - apply corrupt_aux_inv in H as (k & ks' & rest & -> & Hr & ->).
+    rewrite strip_app, strip_piece, strip_cons, (IH _ _ _ _ Hr). destruct (cl_ws c); reflexivity.
+Qed.
+
+Lemma strip_cp_concat_piece ti td prev first c k :
+  strip_cp (concat (piece ti td prev first c k)) = strip_cp c.
+Proof.
+  unfold piece. destruct (cl_ws c) eqn:E.
+  - destruct (k <? td); cbn [concat]; [|rewrite app_nil_r; reflexivity].
+    rewrite (strip_cp_ws c E). reflexivity.
+  - destruct ((k <? ti) && negb first && negb prev)%bool; cbn [concat]; rewrite ?app_nil_r; [|reflexivity].
+    rewrite strip_cp_app. reflexivity.
+Qed.
+
+Lemma corrupt_strip_cp ti td : forall chars prev first ks out,
+  corrupt_aux ti td prev first chars ks = Some out ->
+  strip_cp (concat out) = strip_cp (concat chars).
+Proof.
+  induction chars as [|c r IH]; intros prev first ks out H.
+  - cbn in H. injection H as <-. reflexivity.
+  - apply corrupt_aux_inv in H as (k & ks' & rest & -> & Hr & ->).
+    rewrite concat_app. cbn [concat]. rewrite !strip_cp_app, strip_cp_concat_piece, (IH _ _ _ _ Hr).
+    reflexivity.
+Qed.
+
+(** * 3. the result is whitespace-clean again *)
+Lemma corrupt_head ti td prev first d r ks out :
+  cl_ws d = false -> prev = true \/ first = true ->
+  corrupt_aux ti td prev first (d :: r) ks = Some out -> exists out', out = d :: out'.
+Proof.
+  intros Hd Hpf H. apply corrupt_aux_inv in H as (k & ks' & rest & -> & Hr & ->).
+  unfold piece. rewrite Hd.
+  assert (E : ((k <? ti) && negb first && negb prev)%bool = false).
+  { destruct Hpf as [-> | ->]; cbn; [apply andb_false_r|rewrite andb_false_r; reflexivity]. }
+  rewrite E. eexists; reflexivity.
+Qed.
+
+Lemma corrupt_SC ti td : forall t prev first ks out,
+  SC t -> corrupt_aux ti td prev first t ks = Some out -> SC out.
+Proof.
+  induction t as [|c r IH]; intros prev first ks out Ht H.
+  - cbn in H. injection H as <-. exact Logic.I.
+  - destruct Ht as [Hc Hr]. apply corrupt_aux_inv in H as (k & ks' & rest & -> & Hrest & ->).
+    pose proof (IH _ _ _ _ Hr Hrest) as IHr. unfold piece. destruct (cl_ws c) eqn:E.
+    + destruct (k <? td); [exact IHr|]. cbn [app SC]. split; [|exact IHr]. intros _.
+      destruct (Hc eq_refl) as (H32 & Hne & Hh). split; [exact H32|].
+      destruct r as [|d r']; [congruence|]. cbn [head_nonws] in Hh.
+      destruct (corrupt_head _ _ _ _ _ _ _ _ Hh (or_introl eq_refl) Hrest) as [out' ->].
+      split; [discriminate|exact Hh].
+    + destruct ((k <? ti) && negb first && negb prev)%bool; cbn [app SC].
+      * split; [intros _; repeat split; [discriminate|exact E]|].
+        split; [rewrite E; discriminate|exact IHr].
+      * split; [rewrite E; discriminate|exact IHr].
+Qed.
+
+Lemma corrupt_Clean iw dw t ks out :
+  Clean t -> corrupt_cl iw dw t ks = Some out -> Clean out.
+Proof.
+  unfold corrupt_cl. intros [Hh Hs] H. split; [|exact (corrupt_SC _ _ _ _ _ _ _ Hs H)].
+  destruct t as [|d r].
+  - cbn in H. injection H as <-. exact Logic.I.
+  - cbn [head_nonws] in Hh.
+    destruct (corrupt_head _ _ _ _ _ _ _ _ Hh (or_intror eq_refl) H) as [out' ->]. exact Hh.
+Qed.
+
+(** * 4. operations / repair recover the text: one label per character *)
+Lemma corrupt_labels_l iw dw t ks out :
+  Clean t -> corrupt_cl iw dw t ks = Some out ->
+  exists ops, operations out t = Some ops /\ length ops = length out
+              /\ repair out ops = Some (concat t).
+Proof.
+  intros Ht H. apply ops_roundtrip_l; [exact (corrupt_Clean _ _ _ _ _ Ht H)|exact Ht|].
+  exact (corrupt_strip _ _ _ _ _ _ _ H).
+Qed.
+
+(** * 5. probability 0 *)
+(** [DelR P a b]: [b] is [a] minus some elements that satisfy [P] *)
+Inductive DelR {A} (P : A -> Prop) : list A -> list A -> Prop :=
+| DelR_nil : DelR P [] []
+| DelR_keep x a b : DelR P a b -> DelR P (x :: a) (x :: b)
+| DelR_drop x a b : P x -> DelR P a b -> DelR P (x :: a) b.
+
+Definition in_range (ks : list Z) : Prop := Forall (fun k => 0 <= k < D53) ks.
+
+(** delete probability 0: every whitespace character survives; the text is the
+    corrupted input minus inserted U+0020 *)
+Lemma corrupt_dw0 ti : forall t prev first ks out,
+  in_range ks -> corrupt_aux ti 0 prev first t ks = Some out -> DelR (eq [32%N]) out t.
+Proof.
+  induction t as [|c r IH]; intros prev first ks out Hk H.
+  - cbn in H. injection H as <-. constructor.
+  - apply corrupt_aux_inv in H as (k & ks' & rest & -> & Hrest & ->).
+    inversion Hk as [|? ? Hk0 Hk']; subst. pose proof (IH _ _ _ _ Hk' Hrest) as IHr.
+    unfold piece. assert (E : (k <? 0) = false) by (apply Z.ltb_ge; lia). rewrite E.
+    destruct (cl_ws c).
+    + cbn [app]. constructor. exact IHr.
+    + destruct ((k <? ti) && negb first && negb prev)%bool; cbn [app].
+      * apply DelR_drop; [reflexivity|]. constructor. exact IHr.
+      * constructor. exact IHr.
+Qed.
+
+(** insert probability 0: nothing appears; the corrupted input is the text minus
+    whitespace characters (which are U+0020 in a clean text) *)
+Lemma corrupt_iw0 td : forall t prev first ks out,
+  in_range ks -> corrupt_aux 0 td prev first t ks = Some out ->
+  DelR (fun c => cl_ws c = true) t out.
+Proof.
+  induction t as [|c r IH]; intros prev first ks out Hk H.
+  - cbn in H. injection H as <-. constructor.
+  - apply corrupt_aux_inv in H as (k & ks' & rest & -> & Hrest & ->).
+    inversion Hk as [|? ? Hk0 Hk']; subst. pose proof (IH _ _ _ _ Hk' Hrest) as IHr.
+    unfold piece. assert (E : (k <? 0) = false) by (apply Z.ltb_ge; lia). rewrite E.
+    cbn [andb]. destruct (cl_ws c) eqn:Ec.
+    + destruct (k <? td); cbn [app].
+      * apply DelR_drop; [exact Ec|exact IHr].
+      * constructor. exact IHr.
+    + cbn [app]. constructor. exact IHr.
+Qed.
+
+Lemma corrupt_iw0_SC td : forall t prev first ks out,
+  SC t -> in_range ks -> corrupt_aux 0 td prev first t ks = Some out ->
+  DelR (eq [32%N]) t out.
+Proof.
+  induction t as [|c r IH]; intros prev first ks out Ht Hk H.
+  - cbn in H. injection H as <-. constructor.
+  - destruct Ht as [Hc Hr].
+    apply corrupt_aux_inv in H as (k & ks' & rest & -> & Hrest & ->).
+    inversion Hk as [|? ? Hk0 Hk']; subst. pose proof (IH _ _ _ _ Hr Hk' Hrest) as IHr.
+    unfold piece. assert (E : (k <? 0) = false) by (apply Z.ltb_ge; lia). rewrite E.
+    cbn [andb]. destruct (cl_ws c) eqn:Ec.
+    + destruct (k <? td); cbn [app].
+      * apply DelR_drop; [destruct (Hc eq_refl) as [-> _]; reflexivity|exact IHr].
+      * constructor. exact IHr.
+    + cbn [app]. constructor. exact IHr.
+Qed.
+
+(** probabilities (0, 1): all whitespace goes, nothing else changes *)
+Lemma corrupt_dw1_iw0 : forall t prev first ks out,
+  in_range ks -> corrupt_aux 0 D53 prev first t ks = Some out -> out = strip t.
+Proof.
+  induction t as [|c r IH]; intros prev first ks out Hk H.
+  - cbn in H. injection H as <-. reflexivity.
+  - apply corrupt_aux_inv in H as (k & ks' & rest & -> & Hrest & ->).
+    inversion Hk as [|? ? Hk0 Hk']; subst. rewrite (IH _ _ _ _ Hk' Hrest).
+    unfold piece. assert (E : (k <? 0) = false) by (apply Z.ltb_ge; lia).
+    assert (E1 : (k <? D53) = true) by (apply Z.ltb_lt; lia). rewrite E, E1, strip_cons.
+    destruct (cl_ws c); reflexivity.
+Qed.
+
+(** * 6. structure of the output clusters *)
+Lemma wf_seg_app a b : M11.wf_seg (a ++ b) = (M11.wf_seg a && M11.wf_seg b)%bool.
+Proof. unfold M11.wf_seg. apply forallb_app. Qed.
+
+Lemma wf32 : M11.wf_seg [[32%N]] = true.
+Proof. reflexivity. Qed.
+
+Lemma wf_piece ti td prev first c k :
+  M11.wf_seg [c] = true -> M11.wf_seg (piece ti td prev first c k) = true.
+Proof.
+  intros H. unfold piece. destruct (cl_ws c); [destruct (k <? td); [reflexivity|exact H]|].
+  destruct ((k <? ti) && negb first && negb prev)%bool; [|exact H].
+  change [[32%N]; c] with ([[32%N]] ++ [c]). rewrite wf_seg_app, wf32, H. reflexivity.
+Qed.
+
+Lemma corrupt_wf ti td : forall t prev first ks out,
+  M11.wf_seg t = true -> corrupt_aux ti td prev first t ks = Some out -> M11.wf_seg out = true.
+Proof.
+  induction t as [|c r IH]; intros prev first ks out Ht H.
+  - cbn in H. injection H as <-. reflexivity.
+  - apply corrupt_aux_inv in H as (k & ks' & rest & -> & Hrest & ->).
+    change (c :: r) with ([c] ++ r) in Ht. rewrite wf_seg_app in Ht.
+    apply andb_true_iff in Ht as [Hc Hr]. rewrite wf_seg_app, (wf_piece _ _ _ _ _ _ Hc).
+    exact (IH _ _ _ _ Hr Hrest).
+Qed.
+
+Definition singleb (c : cluster) : bool := match c with [_] => true | _ => false end.
+
+Lemma singles_singletons s : forallb singleb (singletons s) = true.
+Proof. induction s as [|x s IH]; [reflexivity|exact IH]. Qed.
+
+Lemma singletons_concat l : forallb singleb l = true -> singletons (concat l) = l.
+Proof.
+  induction l as [|c l IH]; [reflexivity|]. cbn [forallb]. intros H.
+  apply andb_true_iff in H as [Hc Hl]. destruct c as [|x [|y c']]; try discriminate.
+  cbn [concat app singletons map]. f_equal. exact (IH Hl).
+Qed.
+
+Lemma corrupt_singles ti td : forall t prev first ks out,
+  forallb singleb t = true -> corrupt_aux ti td prev first t ks = Some out ->
+  forallb singleb out = true.
+Proof.
+  induction t as [|c r IH]; intros prev first ks out Ht H.
+  - cbn in H. injection H as <-. reflexivity.
+  - apply corrupt_aux_inv in H as (k & ks' & rest & -> & Hrest & ->).
+    cbn [forallb] in Ht. apply andb_true_iff in Ht as [Hc Hr].
+    rewrite forallb_app, (IH _ _ _ _ Hr Hrest), andb_true_r. unfold piece.
+    destruct (cl_ws c); [destruct (k <? td); [reflexivity|cbn [forallb]; rewrite Hc; reflexivity]|].
+    destruct ((k <? ti) && negb first && negb prev)%bool; cbn [forallb singleb]; rewrite Hc; reflexivity.
+Qed.
+
+(** cluster-level [Clean] (C10) of a segmentation without mixed clusters gives the
+    code-point-level normal form of C11 *)
+Lemma scs_of_SC : forall seg, SC seg -> M11.wf_seg seg = true -> M11.scs (concat seg) = true.
+Proof.
+  induction seg as [|c r IH]; intros Hs Hw; [reflexivity|].
+  destruct Hs as [Hc Hr]. apply P11.wf_seg_cons in Hw as (Hne & Hm & Hwr).
+  specialize (IH Hr Hwr). cbn [concat]. destruct Hm as [Hws|[Hws Hn]].
+  - destruct (Hc Hws) as (-> & Hrne & Hh). cbn [app M11.scs].
+    change (is_ws 32%N) with true. cbv iota. rewrite IH, andb_true_r. cbn [N.eqb Pos.eqb andb].
+    rewrite <- (P11.head_nonws_concat r Hwr). destruct r as [|d r']; [congruence|].
+    cbn [head_nonws] in Hh. cbn [M11.head_is]. unfold M11.nonws_cl. rewrite Hh. reflexivity.
+  - rewrite P11.scs_app_word by exact Hn. exact IH.
+Qed.
+
+Lemma cleansb_of_Clean seg : Clean seg -> M11.wf_seg seg = true -> M11.cleansb (concat seg) = true.
+Proof.
+  intros [Hh Hs] Hw. unfold M11.cleansb. rewrite (scs_of_SC seg Hs Hw), andb_true_r.
+  destruct seg as [|c r]; [reflexivity|]. cbn [head_nonws] in Hh.
+  apply P11.wf_seg_cons in Hw as (Hne & Hm & _). destruct Hm as [Hws|[_ Hn]]; [congruence|].
+  destruct c as [|x c']; [congruence|]. cbn [concat app M11.head_is].
+  cbn [forallb] in Hn. apply andb_true_iff in Hn as [Hx _]. unfold M11.nonws_cp in Hx.
+  rewrite Hx. reflexivity.
+Qed.
+
+(** * 7. the greedy decision procedure is complete *)
+Lemma DelR_app_same {A} (P : A -> Prop) x : forall a b, DelR P a b -> DelR P (x ++ a) (x ++ b).
+Proof. induction x as [|y x IH]; intros a b H; [exact H|]. cbn [app]. constructor. auto. Qed.
+
+Lemma DelR_concat a b :
+  DelR (eq [32%N]) a b -> DelR (fun x => is32 x = true) (concat a) (concat b).
+Proof.
+  induction 1 as [|x a b H IH|x a b Hx H IH]; cbn [concat].
+  - constructor.
+  - apply DelR_app_same. exact IH.
+  - subst x. cbn [app]. apply DelR_drop; [reflexivity|exact IH].
+Qed.
+
+Lemma DelR_uncons {A} (P : A -> Prop) x : forall a b, DelR P a (x :: b) -> P x -> DelR P a b.
+Proof.
+  induction a as [|y a IH]; intros b H Hx; inversion H; subst.
+  - apply DelR_drop; assumption.
+  - apply DelR_drop; [assumption|]. apply IH; assumption.
+Qed.
+
+Lemma delb_complete p : forall a b, DelR (fun x => p x = true) a b -> delb p a b = true.
+Proof.
+  induction a as [|x a IH]; intros b H.
+  - inversion H; subst. reflexivity.
+  - cbn [delb]. destruct b as [|y b'].
+    + inversion H; subst. rewrite H2. cbn [andb]. apply IH. assumption.
+    + destruct (N.eqb x y) eqn:E.
+      * apply N.eqb_eq in E. subst y. inversion H; subst; [apply IH; assumption|].
+        apply IH. apply (DelR_uncons _ x); assumption.
+      * inversion H; subst; [rewrite N.eqb_refl in E; discriminate|].
+        rewrite H2. cbn [andb]. apply IH. assumption.
+Qed.
+
+(** * 8. labels *)
+Lemma labels_length np ns ops : length (labels np ns ops) = (np + length ops + ns)%nat.
+Proof. unfold labels. rewrite !app_length, !repeat_length, map_length. lia. Qed.
+
+Lemma labels_prefix np ns ops : firstn np (labels np ns ops) = repeat (-1) np.
+Proof.
+  unfold labels. rewrite <- (repeat_length (-1) np) at 1. apply P11.firstn_exact.
+Qed.
+
+Lemma labels_mid np ns ops : skipn np (labels np ns ops) = map op_code ops ++ repeat (-1) ns.
+Proof.
+  unfold labels. rewrite <- (repeat_length (-1) np) at 1. apply P11.skipn_exact.
+Qed.
+
+Lemma labels_ops np ns ops n :
+  n = length ops -> firstn n (skipn np (labels np ns ops)) = map op_code ops.
+Proof.
+  intros ->. rewrite labels_mid. rewrite <- (map_length op_code ops). apply P11.firstn_exact.
+Qed.
+
+Lemma labels_suffix np ns ops n :
+  n = length ops -> skipn (np + n) (labels np ns ops) = repeat (-1) ns.
+Proof.
+  intros ->. rewrite Nat.add_comm, <- P11.skipn_skipn, labels_mid.
+  rewrite <- (map_length op_code ops). apply P11.skipn_exact.
+Qed.
+
+Lemma code_op_code ops : map code_op (map op_code ops) = ops.
+Proof. induction ops as [|[] ops IH]; cbn [map]; [reflexivity|..]; rewrite IH; reflexivity. Qed.
+
+Lemma op_code_range ops : forallb (fun z => (0 <=? z) && (z <=? 2))%bool (map op_code ops) = true.
+Proof. induction ops as [|[] ops IH]; cbn [map forallb]; [reflexivity|..]; rewrite IH; reflexivity. Qed.
+
+Lemma zlist_eqb_refl l : zlist_eqb l l = true.
+Proof. induction l as [|x l IH]; cbn [zlist_eqb]; [reflexivity|]. rewrite Z.eqb_refl. exact IH. Qed.
+
+Lemma v_z_list l : v_list v_z (list_v z_v l) = l.
+Proof.
+  unfold v_list, list_v. rewrite map_map. induction l as [|x l IH]; cbn [map]; [reflexivity|].
+  rewrite IH. reflexivity.
+Qed.
+
+(** * 9. the executable statement holds of the model's own output *)
+(** well-formed oracle: one draw in [0, 2^53) per character; in grapheme mode,
+    for a text in the property's domain, the real segmenter gives back the
+    clusters the corruption wrote (SeamStable; false exactly on the KF1 class) *)
+Definition wf_input (v : val) : Prop :=
+  (length (in_text v) <= length (in_ks v))%nat /\ in_range (in_ks v) /\
+  (v_bool (v_nth 0 v) = true -> premise (in_text v) = true ->
+   forall ccl, corrupt_cl (in_iw v) (in_dw v) (in_text v) (in_ks v) = Some ccl ->
+               v_clusters (v_nth 2 v) = ccl).
+
+Lemma in_text_singles v : v_bool (v_nth 0 v) = false -> forallb singleb (in_text v) = true.
+Proof. unfold in_text. intros ->. apply singles_singletons. Qed.
+
+Lemma nlist_eqb_refl l : nlist_eqb l l = true.
+Proof. apply nlist_eqb_eq. reflexivity. Qed.
+
+Lemma check_run_l v : wf_input v -> check_C14 v (run_C14 v) = true.
+Proof.
+  intros (Hlen & Hrange & Hseam). unfold check_C14, run_C14.
+  destruct (accepted (in_iw v) (in_dw v)) eqn:Hacc; cbn [negb]; [|reflexivity].
+  set (t := in_text v) in *.
+  destruct (corrupt_aux_total (clamp (in_iw v)) (clamp (in_dw v)) t false true (in_ks v) Hlen) as [ccl Hc].
+  fold (corrupt_cl (in_iw v) (in_dw v) t (in_ks v)) in Hc. rewrite Hc.
+  cbn [apply_input fst snd v_nth nth]. rewrite !P11.v_n_list.
+  set (c := concat ccl). set (cseg := in_cseg v c).
+  set (lab := if nlist_eqb (concat cseg) c
+              then option_map (labels (in_np v) (in_ns v)) (operations cseg t) else None).
+  assert (Hsh : shape_ok (L [I 1; list_v n_v c; list_v n_v (concat t); opt_v (list_v z_v) lab; I 1]) = true)
+    by (destruct lab; reflexivity).
+  rewrite Hsh. cbn [v_z Z.eqb Pos.eqb andb]. rewrite nlist_eqb_refl. cbn [andb].
+  unfold c at 1. unfold corrupt_cl in Hc. rewrite (corrupt_strip_cp _ _ _ _ _ _ _ Hc), nlist_eqb_refl.
+  cbn [andb]. destruct (premise t) eqn:Hp; [|reflexivity].
+  pose proof Hp as Hp0. unfold premise in Hp. apply andb_true_iff in Hp as [Hcl Hwf].
+  apply cleanb_spec in Hcl.
+  assert (Hcc : Clean ccl) by exact (corrupt_Clean _ _ _ _ _ Hcl Hc).
+  assert (Hwc : M11.wf_seg ccl = true) by exact (corrupt_wf _ _ _ _ _ _ _ Hwf Hc).
+  assert (Hseg : cseg = ccl).
+  { unfold cseg, in_cseg. destruct (v_bool (v_nth 0 v)) eqn:Hg.
+    - apply (Hseam eq_refl eq_refl). exact Hc.
+    - unfold c. apply singletons_concat. apply (corrupt_singles _ _ _ _ _ _ _ (in_text_singles v Hg) Hc). }
+  unfold c at 1. rewrite (cleansb_of_Clean ccl Hcc Hwc). cbn [andb].
+  destruct (corrupt_labels_l _ _ _ _ _ Hcl Hc) as (ops & Hops & Hlo & Hrep).
+  unfold lab. rewrite Hseg. fold c. rewrite nlist_eqb_refl, Hops. cbn [option_map opt_v v_opt].
+  rewrite v_z_list, labels_length, Hlo, Nat.eqb_refl, labels_prefix, zlist_eqb_refl.
+  rewrite (labels_suffix _ _ _ _ (eq_sym Hlo)), zlist_eqb_refl.
+  rewrite (labels_ops _ _ _ _ (eq_sym Hlo)), op_code_range, code_op_code, Hrep, nlist_eqb_refl.
+  cbn [andb].
+  assert (Hd : (if clamp (in_dw v) =? 0 then delb is32 c (concat t) else true) = true).
+  { destruct (clamp (in_dw v) =? 0) eqn:E; [|reflexivity]. apply Z.eqb_eq in E. rewrite E in Hc.
+    apply delb_complete, DelR_concat. exact (corrupt_dw0 _ _ _ _ _ _ Hrange Hc). }
+  assert (Hi : (if clamp (in_iw v) =? 0 then delb is32 (concat t) c else true) = true).
+  { destruct (clamp (in_iw v) =? 0) eqn:E; [|reflexivity]. apply Z.eqb_eq in E. rewrite E in Hc.
+    apply delb_complete, DelR_concat. destruct Hcl as [_ Hsc].
+    exact (corrupt_iw0_SC _ _ _ _ _ _ Hsc Hrange Hc). }
+  rewrite Hd, Hi. reflexivity.
+Qed.
+
+Lemma delb_sound p : forall a b, delb p a b = true -> DelR (fun x => p x = true) a b.
+Proof.
+  induction a as [|x a IH]; intros b H; cbn [delb] in H.
+  - destruct b; [constructor|discriminate].
+  - destruct b as [|y b'].
+    + apply andb_true_iff in H as [H1 H2]. apply DelR_drop; auto.
+    + destruct (N.eqb x y) eqn:E.
+      * apply N.eqb_eq in E. subst y. constructor. auto.
+      * apply andb_true_iff in H as [H1 H2]. apply DelR_drop; auto.
+Qed.
+
+Lemma delb_iff p a b : delb p a b = true <-> DelR (fun x => p x = true) a b.
+Proof. split; [apply delb_sound|apply delb_complete]. Qed.
+
+(** top-level forms *)
+Lemma corrupt_total_l iw dw t ks :
+  (length t <= length ks)%nat -> exists out, corrupt_cl iw dw t ks = Some out.
+Proof. apply corrupt_aux_total. Qed.
+
+Lemma corrupt_nonws_l iw dw t ks out :
+  corrupt_cl iw dw t ks = Some out ->
+  strip out = strip t /\ strip_cp (concat out) = strip_cp (concat t).
+Proof. intros H. split; [exact (corrupt_strip _ _ _ _ _ _ _ H)|exact (corrupt_strip_cp _ _ _ _ _ _ _ H)]. Qed.
+
+Lemma corrupt_clean_cp_l iw dw t ks out :
+  Clean t -> M11.wf_seg t = true -> corrupt_cl iw dw t ks = Some out ->
+  M11.cleansb (concat out) = true.
+Proof.
+  intros Ht Hw H. apply cleansb_of_Clean; [exact (corrupt_Clean _ _ _ _ _ Ht H)|].
+  exact (corrupt_wf _ _ _ _ _ _ _ Hw H).
+Qed.
+
+Lemma corrupt_dw0_l iw dw t ks out :
+  clamp dw = 0 -> in_range ks -> corrupt_cl iw dw t ks = Some out ->
+  DelR (eq [32%N]) out t /\ DelR (fun x => is32 x = true) (concat out) (concat t).
+Proof.
+  unfold corrupt_cl. intros -> Hk H. pose proof (corrupt_dw0 _ _ _ _ _ _ Hk H) as D.
+  split; [exact D|apply DelR_concat; exact D].
+Qed.
+
+Lemma corrupt_iw0_l iw dw t ks out :
+  clamp iw = 0 -> in_range ks -> corrupt_cl iw dw t ks = Some out ->
+  DelR (fun c => cl_ws c = true) t out /\
+  (Clean t -> DelR (eq [32%N]) t out /\ DelR (fun x => is32 x = true) (concat t) (concat out)).
+Proof.
+  unfold corrupt_cl. intros -> Hk H. split; [exact (corrupt_iw0 _ _ _ _ _ _ Hk H)|].
+  intros [_ Hs]. pose proof (corrupt_iw0_SC _ _ _ _ _ _ Hs Hk H) as D.
+  split; [exact D|apply DelR_concat; exact D].
+Qed.
+
+Lemma clamp_1 : clamp D53 = D53.
+Proof. reflexivity. Qed.
+Lemma clamp_0 : clamp 0 = 0.
+Proof. reflexivity. Qed.
+
+Lemma corrupt_extreme_l t ks out :
+  in_range ks -> corrupt_cl 0 D53 t ks = Some out -> out = strip t.
+Proof. unfold corrupt_cl. rewrite clamp_0, clamp_1. apply corrupt_dw1_iw0. Qed.
+
+(** code-point mode: re-segmenting the corrupted text gives back the clusters
+    that were written (SeamStable is a theorem there) *)
+Lemma corrupt_cp_stable iw dw s ks out :
+  corrupt_cl iw dw (singletons s) ks = Some out -> singletons (concat out) = out.
+Proof.
+  intros H. apply singletons_concat.
+  exact (corrupt_singles _ _ _ _ _ _ _ (singles_singletons s) H).
+Qed.
+
+(** code-point mode, string level: everything about one clean string *)
+Lemma corrupt_cp_all iw dw s ks :
+  M11.cleansb s = true -> (length s <= length ks)%nat ->
+  exists c, option_map (@concat N) (corrupt_cl iw dw (singletons s) ks) = Some c
+    /\ strip_cp c = strip_cp s
+    /\ M11.cleansb c = true
+    /\ exists ops, operations (singletons c) (singletons s) = Some ops
+                   /\ length ops = length c
+                   /\ repair (singletons c) ops = Some s.
+Proof.
+  intros Hs Hl.
+  assert (Ht : Clean (singletons s)).
+  { apply (C11_Link.Clean_of_cleansb s); [exact Hs|apply P11.concat_singletons|apply P11.wf_singletons]. }
+  destruct (corrupt_total_l iw dw (singletons s) ks) as [out Ho].
+  { unfold singletons. rewrite map_length. exact Hl. }
+  exists (concat out). rewrite Ho. split; [reflexivity|].
+  destruct (corrupt_nonws_l _ _ _ _ _ Ho) as [_ Hn]. rewrite P11.concat_singletons in Hn.
+  split; [exact Hn|]. split.
+  { exact (corrupt_clean_cp_l _ _ _ _ _ Ht (P11.wf_singletons s) Ho). }
+  destruct (corrupt_labels_l _ _ _ _ _ Ht Ho) as (ops & H1 & H2 & H3).
+  rewrite (corrupt_cp_stable _ _ _ _ _ Ho). exists ops. rewrite P11.concat_singletons in H3.
+  split; [exact H1|]. split; [|exact H3].
+  rewrite H2. rewrite <- (corrupt_cp_stable _ _ _ _ _ Ho) at 1. unfold singletons. apply map_length.
+Qed.
